@@ -19,9 +19,9 @@ PROP = dict(
              "drop route, fresh tour)",
     traced="the bodies of the shipped operators, hyper-heuristics, populations and post-processing: every returned solution of the campaign is "
            "checked by the Lean specification Spec.feasible on the pragmatic solution JSON (windows of the place used, shift window, load per "
-           "reload interval and dimension, skills, distance/duration/size limits, groups, compatibility, hard order, reachability, relations)",
-    out_of_model="vicinity clustering, recharge stations, required breaks/reserved times, time-dependent matrices; break time windows are not "
-                 "checked by the specification",
+           "reload interval and dimension, skills, distance/duration/size limits, groups, compatibility, hard order, reachability, relations; a taken optional break is one the shift defines: duration and location of one of its "
+           "places, begun inside its time window, offsets counted from the departure)",
+    out_of_model="vicinity clustering, recharge stations, required breaks/reserved times, time-dependent matrices",
     assumptions=["metric matrices in the proof-backed stream (removals keep time feasibility only under the triangle inequality: theorem "
                  "hypothesis Metric, known finding S7 outside it)"],
 )
